@@ -339,7 +339,9 @@ def run_obligation(args):
     except Timeout:
         out["status"] = "inconclusive"
         out["reasons"] = ["wall budget exceeded"]
-    except Exception as e:
+    except (KeyboardInterrupt, SystemExit):
+        raise
+    except BaseException as e:
         out["status"] = "harness_error"
         out["reasons"] = ["".join(traceback.format_exception(type(e), e, e.__traceback__))[-1500:]]
     finally:
